@@ -833,4 +833,166 @@ theorem toF64_big_integer_refused (neg : Bool) (hd ip : Bytes) (hh : IsF64Head h
       exact f64Body_int_refuse false c data ip hh hbig
 
 
+/-- raising the exponent by one halves the scaled quotient (floor of floor). -/
+theorem scaleQ_succ (num den : Nat) (e : Int) :
+    (scaleQ num den (e + 1)).1 = (scaleQ num den e).1 / 2 := by
+  unfold scaleQ
+  by_cases he : e ≥ 0
+  · have he1 : e + 1 ≥ 0 := by omega
+    have ht : (e + 1).toNat = e.toNat + 1 := by omega
+    simp only [he, he1, if_true, ht, Nat.pow_succ, ← Nat.mul_assoc]
+    rw [Nat.div_div_eq_div_mul]
+  · by_cases he1 : e + 1 ≥ 0
+    · have e_eq : e = -1 := by omega
+      subst e_eq
+      simp only [he, if_false]
+      simp
+      rw [Nat.mul_comm num 2, Nat.div_div_eq_div_mul, Nat.mul_comm den 2, Nat.mul_div_mul_left _ _ (by decide : 0 < 2)]
+    · have ht : (-e).toNat = (-(e + 1)).toNat + 1 := by omega
+      simp only [he, he1, if_false, ht, Nat.pow_succ, ← Nat.mul_assoc]
+      rw [Nat.div_div_eq_div_mul, Nat.mul_comm den 2, Nat.mul_comm _ 2, Nat.mul_div_mul_left _ _ (by decide : 0 < 2)]
+
+/-- the first-guess quotient is below `2^54`. -/
+theorem scaleQ_e0_lt (num den : Nat) (hn : num ≠ 0) (hd : den ≠ 0) :
+    (scaleQ num den ((bitLen num : Int) - (bitLen den : Int) - 53)).1 < 2 ^ 54 := by
+  obtain ⟨-, hnum⟩ := bitLen_bounds num hn
+  obtain ⟨hden, -⟩ := bitLen_bounds den hd
+  have hLd : 1 ≤ bitLen den := by simp [bitLen, hd]
+  have hdpos : 0 < den := Nat.pos_of_ne_zero hd
+  unfold scaleQ
+  by_cases he : (bitLen num : Int) - (bitLen den : Int) - 53 ≥ 0
+  · simp only [he, if_true]
+    generalize ht : ((bitLen num : Int) - (bitLen den : Int) - 53).toNat = t
+    have hLn : bitLen num = bitLen den + 53 + t := by omega
+    rw [Nat.div_lt_iff_lt_mul (Nat.mul_pos hdpos (Nat.two_pow_pos t))]
+    calc num < 2 ^ bitLen num := hnum
+      _ = 2 ^ 54 * (2 ^ (bitLen den - 1) * 2 ^ t) := by
+          rw [← Nat.pow_add, ← Nat.pow_add]; congr 1; omega
+      _ ≤ 2 ^ 54 * (den * 2 ^ t) := Nat.mul_le_mul_left _ (Nat.mul_le_mul_right _ hden)
+  · simp only [he, if_false]
+    generalize ht : (-((bitLen num : Int) - (bitLen den : Int) - 53)).toNat = t
+    have hLn : bitLen num + t = bitLen den + 53 := by omega
+    rw [Nat.div_lt_iff_lt_mul hdpos]
+    calc num * 2 ^ t < 2 ^ bitLen num * 2 ^ t := Nat.mul_lt_mul_of_pos_right hnum (Nat.two_pow_pos t)
+      _ = 2 ^ 54 * 2 ^ (bitLen den - 1) := by
+          rw [← Nat.pow_add, ← Nat.pow_add]; congr 1; omega
+      _ ≤ 2 ^ 54 * den := Nat.mul_le_mul_left _ hden
+
+
+theorem roundQ_le (q r d : Nat) : roundQ q r d ≤ q + 1 := by
+  unfold roundQ; split <;> (try split) <;> (try split) <;> omega
+
+theorem packBits_lt (q : Nat) (e : Int) (K : Nat) (hq : q ≤ 2 ^ 53) (hK : e + 1 + 1075 ≤ K) (hK2 : K ≤ 2046) :
+    packBits q e < (K + 1) * 2 ^ 52 := by
+  unfold packBits
+  by_cases h1 : q ≥ 2 ^ 53
+  · have hq' : q / 2 = 2 ^ 52 := by omega
+    simp only [h1, if_true, hq']
+    have c2 : ¬ (2 ^ 52 < 2 ^ 52) := by omega
+    have c3 : ¬ (e + 1 + 1075 ≥ 2047) := by omega
+    simp only [c2, c3, if_false]
+    have : (e + 1 + 1075).toNat ≤ K := by omega
+    omega
+  · simp only [h1, if_false]
+    by_cases h2 : q < 2 ^ 52
+    · simp only [h2, if_true]; omega
+    · have c3 : ¬ (e + 1075 ≥ 2047) := by omega
+      simp only [h2, c3, if_false]
+      have : (e + 1075).toNat ≤ K := by omega
+      omega
+
+/-- after `normExp` the quotient fits 53 bits, and the exponent moved by at most one. -/
+theorem normExp_spec (num den : Nat) (e0 : Int) (h : (scaleQ num den e0).1 < 2 ^ 54) :
+    (scaleQ num den (normExp (scaleQ num den e0).1 e0)).1 < 2 ^ 53 ∧
+    normExp (scaleQ num den e0).1 e0 ≤ e0 + 1 ∧ e0 - 1 ≤ normExp (scaleQ num den e0).1 e0 := by
+  unfold normExp
+  by_cases h1 : (scaleQ num den e0).1 ≥ 2 ^ 53
+  · simp only [h1, if_true]
+    refine ⟨?_, by omega, by omega⟩
+    rw [scaleQ_succ]; omega
+  · simp only [h1, if_false]
+    by_cases h2 : (scaleQ num den e0).1 < 2 ^ 52
+    · simp only [h2, if_true]
+      refine ⟨?_, by omega, by omega⟩
+      have := scaleQ_succ num den (e0 - 1)
+      rw [show e0 - 1 + 1 = e0 by omega] at this
+      omega
+    · simp only [h2, if_false]
+      exact ⟨by omega, by omega, by omega⟩
+
+/-- **bound on the exponent field of a rounded quotient**: with `K` at least the first-guess
+exponent plus 2 (biased), and `K ≤ 2046`, the bit pattern is below `(K+1)·2^52`; in
+particular it is finite. -/
+theorem rneBits_lt (num den K : Nat) (hd : den ≠ 0) (hLd : bitLen den ≤ 1000)
+    (hK : (bitLen num : Int) - (bitLen den : Int) - 53 + 2 + 1075 ≤ K) (hK2 : K ≤ 2046) :
+    rneBits num den < (K + 1) * 2 ^ 52 := by
+  by_cases hn : num = 0
+  · subst hn; simp [rneBits]
+  · unfold rneBits
+    have hnd : ¬ (num = 0 ∨ den = 0) := by simp [hn, hd]
+    simp only [hnd, if_false]
+    have hLn : 1 ≤ bitLen num := by simp [bitLen, hn]
+    generalize he0 : (bitLen num : Int) - (bitLen den : Int) - 53 = e0 at *
+    obtain ⟨hq, hup, hlo⟩ := normExp_spec num den e0 (he0 ▸ scaleQ_e0_lt num den hn hd)
+    generalize normExp (scaleQ num den e0).1 e0 = e1 at *
+    have hcl : clampExp e1 = e1 := by
+      unfold clampExp; have : ¬ e1 < -1074 := by omega
+      simp [this]
+    rw [hcl]
+    have hr := roundQ_le (scaleQ num den e1).1 (scaleQ num den e1).2.1 (scaleQ num den e1).2.2
+    exact packBits_lt _ e1 K (by omega) (by omega) hK2
+
+
+theorem bitLen_le (n m : Nat) (h : n < 2 ^ m) : bitLen n ≤ m := by
+  by_cases hn : n = 0
+  · simp [bitLen, hn]
+  · obtain ⟨hlo, -⟩ := bitLen_bounds n hn
+    by_cases hc : bitLen n ≤ m
+    · exact hc
+    · exfalso
+      have : 2 ^ m ≤ 2 ^ (bitLen n - 1) := Nat.pow_le_pow_right (by decide) (by omega)
+      omega
+
+theorem decodeMag_lt (fi : Nat) (h : fi < 1088 * 2 ^ 52) : decodeMag fi < 2 ^ 65 := by
+  unfold decodeMag
+  by_cases h0 : fi = 0
+  · simp [h0]
+  · simp only [h0, if_false]
+    have hbe : fi / 2 ^ 52 ≤ 1087 := by omega
+    have hm : fi % 2 ^ 52 + 2 ^ 52 < 2 ^ 53 := by omega
+    by_cases hge : fi / 2 ^ 52 ≥ 1075
+    · simp only [hge, if_true]
+      have hp : 2 ^ (fi / 2 ^ 52 - 1075) ≤ 2 ^ 12 := Nat.pow_le_pow_right (by decide) (by omega)
+      calc (fi % 2 ^ 52 + 2 ^ 52) * 2 ^ (fi / 2 ^ 52 - 1075)
+          ≤ (fi % 2 ^ 52 + 2 ^ 52) * 2 ^ 12 := Nat.mul_le_mul_left _ hp
+        _ < 2 ^ 53 * 2 ^ 12 := Nat.mul_lt_mul_of_pos_right hm (Nat.two_pow_pos 12)
+        _ = 2 ^ 65 := by rw [← Nat.pow_add]
+    · simp only [hge, if_false]
+      exact Nat.lt_of_le_of_lt (Nat.div_le_self _ _) (by omega)
+
+/-- the magnitude `to_f64` computes for a decimal (`(i as f64) / 10^k`, `i` a `u64`,
+`k ≤ 22`) has an exponent field of at most 1088: it is finite. -/
+theorem frac_mag_lt (i k : Nat) (hi : i ≤ U64_MAX) (hk : k ≤ 22) :
+    rneBits (decodeMag (u64ToF64 i)) (10 ^ k) < 1089 * 2 ^ 52 := by
+  have hfi : u64ToF64 i < 1088 * 2 ^ 52 := by
+    unfold u64ToF64
+    have hb : bitLen i ≤ 64 := bitLen_le i 64 (by simp only [U64_MAX] at hi; omega)
+    exact rneBits_lt i 1 1087 (by decide) (by rw [bitLen_one]; omega) (by rw [bitLen_one]; omega) (by omega)
+  have hnum := bitLen_le _ 65 (decodeMag_lt _ hfi)
+  have hden0 : 10 ^ k ≠ 0 := Nat.pos_iff_ne_zero.mp (Nat.pow_pos (by decide))
+  have hden1 : 1 ≤ bitLen (10 ^ k) := by unfold bitLen; rw [if_neg hden0]; omega
+  have hden74 : bitLen (10 ^ k) ≤ 74 := by
+    apply bitLen_le
+    calc 10 ^ k ≤ 10 ^ 22 := Nat.pow_le_pow_right (by decide) hk
+      _ < 2 ^ 74 := by decide
+  exact rneBits_lt _ _ 1088 hden0 (by omega) (by omega) (by omega)
+
+theorem expField_fracVal (neg : Bool) (i k : Nat) (hi : i ≤ U64_MAX) (hk : k ≤ 22) :
+    expField (fracVal neg i k) ≤ 1088 := by
+  have := frac_mag_lt i k hi hk
+  unfold fracVal
+  generalize rneBits (decodeMag (u64ToF64 i)) (10 ^ k) = q at *
+  cases neg <;> simp only [expField, signBit, Bool.false_eq_true, if_false, if_true] <;> omega
+
+
 end Jomini.Scalar
